@@ -948,4 +948,706 @@ theorem exec_wf (topo : List (Nat × Nat)) (ops : List Op) : WF (exec (init topo
     | cons op ops ih => intro s w; exact ih _ (step_wf w op)
   exact this _ (init_wf topo)
 
+
+
+/-! ### Counts: every operation except a layer step treats `count` and `expected` alike -/
+
+structure Rel (s s' : State) : Prop where
+  h : ∀ i, SameButHandle (s.mons i) (s'.mons i) ∨ ((s'.mons i).count = 0 ∧ (s'.mons i).expected = 0)
+
+theorem Rel.refl (s : State) : Rel s s := ⟨fun _ => Or.inl (SameButHandle.refl _)⟩
+
+theorem Rel.trans {a b c : State} (h1 : Rel a b) (h2 : Rel b c) : Rel a c := by
+  constructor
+  intro i
+  rcases h2.h i with h | h
+  · rcases h1.h i with g | g
+    · exact Or.inl (g.trans h)
+    · right; have := h.fields; rw [this.2.2.1, this.2.2.2.1]; exact g
+  · exact Or.inr h
+
+theorem Rel.of_mons_eq {s s' : State} (h : s'.mons = s.mons) : Rel s s' := by
+  constructor; intro i; rw [h]; exact Or.inl (SameButHandle.refl _)
+
+theorem Rel.of_same {s s' : State} (h : ∀ i, SameButHandle (s.mons i) (s'.mons i)) : Rel s s' :=
+  ⟨fun i => Or.inl (h i)⟩
+
+def CountOK (s : State) : Prop := ∀ mid, (s.mons mid).alive = true → (s.mons mid).count = (s.mons mid).expected
+
+theorem CountOK.of_rel {s s' : State} (h : CountOK s) (r : Rel s s') : CountOK s' := by
+  intro i hi
+  rcases r.h i with g | g
+  · have f := g.fields
+    rw [f.2.2.1, f.2.2.2.1]; apply h; rw [← f.1]; exact hi
+  · rw [g.1, g.2]
+
+theorem rel_deregisterMon (s : State) (mid : Nat) : Rel s (deregisterMon s mid) := by
+  apply Rel.of_same; intro i; rw [deregisterMon_mons]; split
+  · rename_i h; rw [h]; unfold SameButHandle; rfl
+  · exact SameButHandle.refl _
+
+theorem rel_registerMon (s : State) (mid : Nat) : Rel s (registerMon s mid) := by
+  apply Rel.of_same; intro i; rw [registerMon_mons]; split
+  · rename_i h; rw [h.1]; unfold SameButHandle; rfl
+  · exact SameButHandle.refl _
+
+theorem rel_newMonitor (s : State) (t : Nat) (pp : Bool) (path : Path) (tags : Option Nat)
+    (reads : List Nat) (cell : Nat) : Rel s (newMonitor s t pp path tags reads cell).1 := by
+  refine ⟨fun i => ?_⟩; rw [newMonitor_mons]; split
+  · right; exact ⟨rfl, rfl⟩
+  · left; exact SameButHandle.refl _
+
+theorem rel_eraseExisting (s : State) (t n mname : Nat) : Rel s (eraseExisting s t n mname) := by
+  apply Rel.of_mons_eq; unfold eraseExisting; simp only; split <;> rfl
+
+theorem rel_obtainMonitor (s : State) (t cell mname : Nat) (unique prepend : Bool) (tags : Nat) (path : Path)
+    (reads : List Nat) : Rel s (obtainMonitor s t cell mname unique prepend tags path reads).1 := by
+  unfold obtainMonitor
+  split
+  · exact rel_newMonitor ..
+  · split
+    · exact Rel.refl _
+    · exact rel_newMonitor ..
+
+theorem rel_addMonitorTail (s : State) (t n mname mid cell : Nat) : Rel s (addMonitorTail s t n mname mid cell) := by
+  unfold addMonitorTail poolInsert
+  have h1 : Rel s (writeCellMon s cell mname mid) := Rel.of_mons_eq rfl
+  have h2 : Rel (writeCellMon s cell mname mid) (deregIfEval (writeCellMon s cell mname mid) t mid) := by
+    unfold deregIfEval; split
+    · exact Rel.refl _
+    · exact rel_deregisterMon _ _
+  exact (h1.trans h2).trans (Rel.of_mons_eq rfl)
+
+theorem rel_addMonitor (s : State) (t n mname : Nat) (sel : AttrSel) (unique prepend : Bool) (tags : Nat)
+    (reads : List Nat) : Rel s (addMonitor s t n mname sel unique prepend tags reads).1 := by
+  unfold addMonitor
+  split
+  · exact Rel.refl _
+  · simp only
+    split
+    · exact Rel.refl _
+    · split
+      · exact rel_eraseExisting ..
+      · exact ((rel_eraseExisting ..).trans (rel_obtainMonitor ..)).trans (rel_addMonitorTail ..)
+
+theorem rel_addTemplate (tpl : List (Nat × AttrSel × Bool × Bool × Nat × List Nat)) (t n : Nat) (s : State) :
+    Rel s (addTemplate s t n tpl) := by
+  induction tpl generalizing s with
+  | nil => exact Rel.refl _
+  | cons e rest ih => exact (rel_addMonitor ..).trans (ih _)
+
+theorem rel_deregisterUnshared (shared : List Nat) (g : List (Nat × Nat)) (s : State) :
+    Rel s (deregisterUnshared s shared g) := by
+  induction g generalizing s with
+  | nil => exact Rel.refl _
+  | cons e rest ih =>
+    rw [deregisterUnshared_cons]; split
+    · exact ih _
+    · exact (rel_deregisterMon _ _).trans (ih _)
+
+theorem rel_delObserved (s : State) (t n : Nat) : Rel s (delObserved s t n) := by
+  unfold delObserved; split
+  · exact Rel.refl _
+  · exact (rel_deregisterUnshared ..).trans (Rel.of_mons_eq rfl)
+
+theorem rel_delEntry (s : State) (t n mname mid : Nat) : Rel s (delEntry s t n mname mid) := by
+  unfold delEntry dropEmptyGroup
+  have h1 : Rel s (eraseEntry s t n mname) := Rel.of_mons_eq rfl
+  have h2 : Rel (eraseEntry s t n mname) (deregIfUnaliased (eraseEntry s t n mname) t mid) := by
+    unfold deregIfUnaliased; split
+    · exact Rel.refl _
+    · exact rel_deregisterMon _ _
+  exact (h1.trans h2).trans (Rel.of_mons_eq rfl)
+
+theorem rel_setAll (mode : Bool) (l : List Nat) (s : State) : Rel s (setAll s mode l) := by
+  induction l generalizing s with
+  | nil => exact Rel.refl _
+  | cons x rest ih =>
+    rw [setAll_cons]; split
+    · exact (rel_registerMon _ _).trans (ih _)
+    · exact (rel_deregisterMon _ _).trans (ih _)
+
+theorem rel_clearMons (s : State) (t : Nat) : Rel s (clearMons s t) := by
+  refine ⟨fun i => ?_⟩; simp only [clearMons]; split
+  · right; exact ⟨rfl, rfl⟩
+  · left; exact SameButHandle.refl _
+
+theorem rel_stepCore (s : State) (op : Op) (h : op ≠ .layerStep) : Rel s (stepCore s op).1 := by
+  cases op with
+  | layerStep => exact absurd rfl h
+  | newTrainer kind => exact Rel.of_mons_eq rfl
+  | registerCell t n c v =>
+    simp only [stepCore]
+    split
+    · exact Rel.refl _
+    · split
+      · exact Rel.refl _
+      · split
+        · exact Rel.refl _
+        · exact ((rel_delObserved s t n).trans
+            (Rel.of_mons_eq (s' := addCellEntry (delObserved s t n) t n c) rfl)).trans (rel_addTemplate _ _ _ _)
+  | delCell t n =>
+    simp only [stepCore]
+    split
+    · exact Rel.refl _
+    · split
+      · exact Rel.refl _
+      · exact (rel_delObserved s t n).trans (Rel.of_mons_eq rfl)
+  | addMonitor t n mname sel unique prepend tags =>
+    simp only [stepCore]
+    split
+    · exact Rel.refl _
+    · exact rel_addMonitor ..
+  | delMonitor t n mname =>
+    simp only [stepCore]
+    split
+    · exact Rel.refl _
+    · split
+      · exact Rel.refl _
+      · split
+        · exact Rel.refl _
+        · split
+          · exact Rel.refl _
+          · exact rel_delEntry ..
+  | trainerTrain t mode =>
+    simp only [stepCore]
+    split
+    · exact Rel.refl _
+    · exact (Rel.of_mons_eq (s := s) (s' := setTrainer s t { s.trainers t with training := mode }) rfl).trans
+        (rel_setAll _ _ _)
+  | layerTrain mode => exact Rel.of_mons_eq rfl
+  | trainerStep t =>
+    simp only [stepCore]
+    split
+    · exact Rel.refl _
+    · split <;> exact Rel.refl _
+  | clear t =>
+    simp only [stepCore]
+    split
+    · exact Rel.refl _
+    · exact rel_clearMons s t
+  | collect t =>
+    simp only [stepCore]
+    split
+    · exact Rel.refl _
+    · exact Rel.of_mons_eq rfl
+
+theorem countOK_gc {s : State} (h : CountOK s) : CountOK (gc s) := by
+  intro i hi
+  simp only [gc] at hi ⊢
+  split at hi
+  · rename_i hl; simp only [hl, if_true]; exact h i hi
+  · simp at hi
+
+theorem takeWhile_eq_of_length {α : Type} (p : α → Bool) (l : List α)
+    (h : l.length ≤ (l.takeWhile p).length) : l.takeWhile p = l := by
+  induction l with
+  | nil => rfl
+  | cons x xs ih =>
+    rw [List.takeWhile_cons] at h ⊢
+    split
+    · rename_i hp; simp only [hp, if_true, List.length_cons] at h
+      rw [ih (by omega)]
+    · rename_i hp; simp [hp] at h
+
+/-- the hook of an alive monitor is in the layer's list iff its trainer is in training mode -/
+theorem any_post_iff {s : State} (w : WF s) (mid : Nat) (hal : (s.mons mid).alive = true) :
+    s.post.any (fun e => e.2 == mid) = (s.trainers (s.mons mid).owner).training := by
+  have hl := w.alive_live mid hal
+  simp only [live, referenced, hal, Bool.true_and, Bool.and_eq_true, List.contains_iff_mem] at hl
+  have hp := w.pool _ hl.1 mid hl.2
+  rw [← hp.2.2]
+  cases hh : (s.mons mid).handle with
+  | none =>
+    simp only [Option.isSome_none]
+    rw [List.any_eq_false]
+    intro e he
+    have := (w.h.post_ok e he).2.2
+    simp; intro hc; rw [hc, hh] at this; cases this
+  | some hid =>
+    simp only [Option.isSome_some]
+    rw [List.any_eq_true]
+    exact ⟨(hid, mid), w.h.handle_mem mid hid hh, by simp⟩
+
+theorem countOK_layerStep {s : State} (w : WF s) (h : CountOK s) (hok : (stepCore s .layerStep).2 = .ok) :
+    CountOK (stepCore s .layerStep).1 := by
+  simp only [stepCore] at hok ⊢
+  by_cases hlt : s.layerTraining = true
+  · simp only [hlt, Bool.not_true, Bool.false_eq_true, if_false] at hok ⊢
+    have hran : ranHooks s = s.post := by
+      unfold ranHooks
+      apply takeWhile_eq_of_length
+      by_cases hlen : (ranHooks s).length < s.post.length
+      · simp [hlen] at hok
+      · unfold ranHooks at hlen; omega
+    rw [hran]
+    intro mid hal
+    have hal0 : (s.mons mid).alive = true := by
+      simp only [countStep, ghostStep] at hal
+      split at hal <;> split at hal <;> exact hal
+    have hl := w.alive_live mid hal0
+    simp only [live, referenced, hal0, Bool.true_and, Bool.and_eq_true, List.contains_iff_mem] at hl
+    have hany := any_post_iff w mid hal0
+    have hc := h mid hal0
+    simp only [countStep, ghostStep, hany, hal0, hl.1, hlt, Bool.true_and, Bool.and_true]
+    cases (s.trainers (s.mons mid).owner).training <;> simp [hc, hl.2]
+  · simp only [Bool.not_eq_true] at hlt
+    simp only [hlt, Bool.not_false, if_true]
+    intro mid hal
+    simp only [ghostStep, hlt, Bool.and_false, Bool.false_and, Bool.false_eq_true, if_false] at hal ⊢
+    exact h mid hal
+
+
+
+/-! ### Frame lemmas: what an operation addressed to `(t, n)` leaves alone -/
+
+theorem lookup_nil {β : Type} (k : Nat) : lookup ([] : List (Nat × β)) k = none := rfl
+
+theorem lookup_cons {β : Type} (k' : Nat) (v : β) (l : List (Nat × β)) (k : Nat) :
+    lookup ((k', v) :: l) k = if k' = k then some v else lookup l k := by
+  unfold lookup
+  by_cases h : k' = k
+  · simp [h]
+  · simp [h]
+
+theorem lookup_groupsErase_ne (gs : List (Nat × List (Nat × Nat))) (n m n' : Nat) (h : n' ≠ n) :
+    lookup (groupsErase gs n m) n' = lookup gs n' := by
+  induction gs with
+  | nil => rfl
+  | cons g rest ih =>
+    obtain ⟨k, v⟩ := g
+    simp only [groupsErase, List.map_cons] at ih ⊢
+    by_cases hk : k = n
+    · subst hk
+      simp only [beq_self_eq_true, if_true, lookup_cons]
+      have : ¬ k = n' := fun hc => h hc.symm
+      simp only [this, if_false]; exact ih
+    · have : (k == n) = false := by simpa using hk
+      simp only [this, Bool.false_eq_true, if_false, lookup_cons]
+      split
+      · rfl
+      · exact ih
+
+theorem lookup_filter_key_ne (gs : List (Nat × List (Nat × Nat))) (q : Nat × List (Nat × Nat) → Bool) (n n' : Nat)
+    (h : n' ≠ n) (hq : ∀ g, g.1 ≠ n → q g = true) :
+    lookup (gs.filter q) n' = lookup gs n' := by
+  induction gs with
+  | nil => rfl
+  | cons g rest ih =>
+    obtain ⟨k, v⟩ := g
+    rw [List.filter_cons]
+    by_cases hk : k = n'
+    · subst hk
+      rw [hq (k, v) h]; simp only [if_true, lookup_cons]
+    · split
+      · simp only [lookup_cons, hk, if_false]; exact ih
+      · simp only [lookup_cons, hk, if_false]; exact ih
+
+theorem lookup_groupsInsert_ne (gs : List (Nat × List (Nat × Nat))) (n m mid n' : Nat) (h : n' ≠ n) :
+    lookup (groupsInsert gs n m mid) n' = lookup gs n' := by
+  unfold groupsInsert
+  split
+  · rename_i hany; clear hany
+    induction gs with
+    | nil => rfl
+    | cons g rest ih =>
+      obtain ⟨k, v⟩ := g
+      simp only [List.map_cons]
+      by_cases hk : k = n
+      · subst hk
+        simp only [beq_self_eq_true, if_true, lookup_cons]
+        have : ¬ k = n' := fun hc => h hc.symm
+        simp only [this, if_false]; exact ih
+      · have : (k == n) = false := by simpa using hk
+        simp only [this, Bool.false_eq_true, if_false, lookup_cons]
+        split
+        · rfl
+        · exact ih
+  · rename_i hany; clear hany
+    induction gs with
+    | nil => simp [lookup_cons, lookup_nil]; intro hc; exact absurd hc.symm h
+    | cons g rest ih =>
+      obtain ⟨k, v⟩ := g
+      simp only [List.cons_append, lookup_cons]
+      split
+      · rfl
+      · exact ih
+
+/-- trainer-level frame of an operation addressed to registration `(t, n)` -/
+structure TrFrame (s s' : State) (t n : Nat) : Prop where
+  others : ∀ t', t' ≠ t → s'.trainers t' = s.trainers t'
+  groups : ∀ n', n' ≠ n → lookup (s'.trainers t).groups n' = lookup (s.trainers t).groups n'
+  alive : (s'.trainers t).alive = (s.trainers t).alive
+  training : (s'.trainers t).training = (s.trainers t).training
+
+theorem TrFrame.refl (s : State) (t n : Nat) : TrFrame s s t n := ⟨fun _ _ => rfl, fun _ _ => rfl, rfl, rfl⟩
+
+theorem TrFrame.trans {a b c : State} {t n : Nat} (h1 : TrFrame a b t n) (h2 : TrFrame b c t n) : TrFrame a c t n :=
+  ⟨fun t' h => (h2.others t' h).trans (h1.others t' h), fun n' h => (h2.groups n' h).trans (h1.groups n' h),
+   h2.alive.trans h1.alive, h2.training.trans h1.training⟩
+
+theorem TrFrame.of_trainers_eq {s s' : State} (t n : Nat) (h : s'.trainers = s.trainers) : TrFrame s s' t n := by
+  refine ⟨fun _ _ => by rw [h], fun _ _ => by rw [h], by rw [h], by rw [h]⟩
+
+theorem TrFrame.setTrainer (s : State) (t n : Nat) (T : Trainer)
+    (hg : ∀ n', n' ≠ n → lookup T.groups n' = lookup (s.trainers t).groups n')
+    (ha : T.alive = (s.trainers t).alive) (ht : T.training = (s.trainers t).training) :
+    TrFrame s (setTrainer s t T) t n := by
+  refine ⟨fun t' h => by rw [setTrainer_trainers]; simp [h], ?_, by rw [setTrainer_trainers_self]; exact ha,
+    by rw [setTrainer_trainers_self]; exact ht⟩
+  intro n' h; rw [setTrainer_trainers_self]; exact hg n' h
+
+theorem trFrame_eraseExisting (s : State) (t n mname : Nat) : TrFrame s (eraseExisting s t n mname) t n := by
+  unfold eraseExisting; simp only; split
+  · exact TrFrame.setTrainer s t n _ (fun n' h => lookup_groupsErase_ne _ _ _ _ h) rfl rfl
+  · exact TrFrame.refl _ _ _
+
+theorem obtainMonitor_trainers (s : State) (t cell mname : Nat) (unique prepend : Bool) (tags : Nat) (path : Path)
+    (reads : List Nat) : (obtainMonitor s t cell mname unique prepend tags path reads).1.trainers = s.trainers := by
+  unfold obtainMonitor; split
+  · simp
+  · split <;> simp
+
+theorem deregIfEval_trainers (s : State) (t mid : Nat) : (deregIfEval s t mid).trainers = s.trainers := by
+  unfold deregIfEval; split <;> simp
+
+theorem trFrame_addMonitorTail (s : State) (t n mname mid cell : Nat) :
+    TrFrame s (addMonitorTail s t n mname mid cell) t n := by
+  unfold addMonitorTail poolInsert
+  have h1 : TrFrame s (deregIfEval (writeCellMon s cell mname mid) t mid) t n :=
+    TrFrame.of_trainers_eq t n (by rw [deregIfEval_trainers]; rfl)
+  exact h1.trans (TrFrame.setTrainer _ t n _ (fun n' h => lookup_groupsInsert_ne _ _ _ _ _ h) rfl rfl)
+
+theorem trFrame_addMonitor (s : State) (t n mname : Nat) (sel : AttrSel) (unique prepend : Bool) (tags : Nat)
+    (reads : List Nat) : TrFrame s (addMonitor s t n mname sel unique prepend tags reads).1 t n := by
+  unfold addMonitor
+  split
+  · exact TrFrame.refl _ _ _
+  · simp only
+    split
+    · exact TrFrame.refl _ _ _
+    · split
+      · exact trFrame_eraseExisting ..
+      · exact ((trFrame_eraseExisting ..).trans
+          (TrFrame.of_trainers_eq t n (obtainMonitor_trainers ..))).trans (trFrame_addMonitorTail ..)
+
+theorem trFrame_addTemplate (tpl : List (Nat × AttrSel × Bool × Bool × Nat × List Nat)) (t n : Nat) (s : State) :
+    TrFrame s (addTemplate s t n tpl) t n := by
+  induction tpl generalizing s with
+  | nil => exact TrFrame.refl _ _ _
+  | cons e rest ih => exact (trFrame_addMonitor ..).trans (ih _)
+
+theorem deregisterUnshared_trainers (shared : List Nat) (g : List (Nat × Nat)) (s : State) :
+    (deregisterUnshared s shared g).trainers = s.trainers := by
+  induction g generalizing s with
+  | nil => rfl
+  | cons e rest ih => rw [deregisterUnshared_cons, ih]; split <;> simp
+
+theorem trFrame_delObserved (s : State) (t n : Nat) : TrFrame s (delObserved s t n) t n := by
+  unfold delObserved; split
+  · exact TrFrame.refl _ _ _
+  · unfold dropGroup
+    exact (TrFrame.of_trainers_eq t n (deregisterUnshared_trainers ..)).trans
+      (TrFrame.setTrainer _ t n _ (fun n' h => lookup_filter_key_ne _ _ n n' h (fun g hg => by simpa using hg)) rfl rfl)
+
+theorem trFrame_delEntry (s : State) (t n mname mid : Nat) : TrFrame s (delEntry s t n mname mid) t n := by
+  unfold delEntry dropEmptyGroup
+  have h1 : TrFrame s (eraseEntry s t n mname) t n :=
+    TrFrame.setTrainer s t n _ (fun n' h => lookup_groupsErase_ne _ _ _ _ h) rfl rfl
+  have h2 : TrFrame (eraseEntry s t n mname) (deregIfUnaliased (eraseEntry s t n mname) t mid) t n := by
+    apply TrFrame.of_trainers_eq; unfold deregIfUnaliased; split <;> simp
+  exact (h1.trans h2).trans
+    (TrFrame.setTrainer _ t n _ (fun n' h => lookup_filter_key_ne _ _ n n' h (fun g hg => by simp [hg])) rfl rfl)
+
+/-! monitor-level frames -/
+
+theorem deregisterMon_eq_of_none {s : State} {mid : Nat} (h : (s.mons mid).handle = none) (i : Nat) :
+    (deregisterMon s mid).mons i = s.mons i := by
+  rw [deregisterMon_mons]; split
+  · rename_i hi; subst hi; cases hm : s.mons i; simp [hm] at h; simp [h]
+  · rfl
+
+theorem obtainMonitor_cases (s : State) (t cell mname : Nat) (unique prepend : Bool) (tags : Nat) (path : Path)
+    (reads : List Nat) :
+    let r := obtainMonitor s t cell mname unique prepend tags path reads
+    (r.1 = s ∧ r.2 ∈ poolMids (s.trainers t)) ∨
+    (r.2 = s.nMons ∧ r.1.nMons = s.nMons + 1 ∧ ∀ i, i ≠ s.nMons → r.1.mons i = s.mons i) := by
+  intro r
+  simp only [r, obtainMonitor]
+  split
+  · right; refine ⟨rfl, by simp, fun i hi => ?_⟩; rw [newMonitor_mons]; simp [hi]
+  · split
+    · rename_i mid hfa; left; exact ⟨rfl, findAlias_mem hfa⟩
+    · right; refine ⟨rfl, by simp, fun i hi => ?_⟩; rw [newMonitor_mons]; simp [hi]
+
+theorem addMonitorTail_mons (s : State) (t n mname mid cell : Nat) (i : Nat) :
+    (addMonitorTail s t n mname mid cell).mons i =
+      if (s.trainers t).training = true then s.mons i else (deregisterMon s mid).mons i := by
+  unfold addMonitorTail poolInsert deregIfEval
+  simp only [setTrainer_mons]
+  show (if (s.trainers t).training = true then writeCellMon s cell mname mid
+        else deregisterMon (writeCellMon s cell mname mid) mid).mons i = _
+  split <;> rfl
+
+@[simp] theorem addMonitorTail_nMons (s : State) (t n mname mid cell : Nat) :
+    (addMonitorTail s t n mname mid cell).nMons = s.nMons := by
+  unfold addMonitorTail poolInsert deregIfEval
+  simp only [setTrainer_nMons]; split <;> rfl
+
+/-- `add_monitor` does not touch any existing monitor object (a replaced `unique` monitor is
+merely dropped; an aliased one is deregistered only when it already is) -/
+theorem addMonitor_mons_frame {s : State} (w : WFc s) (t n mname : Nat) (sel : AttrSel) (unique prepend : Bool)
+    (tags : Nat) (reads : List Nat) (hal : (s.trainers t).alive = true) :
+    s.nMons ≤ (addMonitor s t n mname sel unique prepend tags reads).1.nMons ∧
+    ∀ i, i < s.nMons → (addMonitor s t n mname sel unique prepend tags reads).1.mons i = s.mons i := by
+  unfold addMonitor
+  cases hc : lookup (s.trainers t).cells n with
+  | none => exact ⟨Nat.le_refl _, fun _ _ => rfl⟩
+  | some cell =>
+    simp only
+    split
+    · exact ⟨Nat.le_refl _, fun _ _ => rfl⟩
+    · obtain ⟨w1, a1, tr1, _, m1⟩ := eraseExisting_spec w t n mname hal
+      have n1 : (eraseExisting s t n mname).nMons = s.nMons := by
+        unfold eraseExisting; simp only; split <;> rfl
+      cases hr : realign (eraseExisting s t n mname) cell sel with
+      | error e => exact ⟨by simp [n1], fun i _ => by simp [m1]⟩
+      | ok path =>
+        simp only
+        generalize hs1 : eraseExisting s t n mname = s1 at w1 a1 tr1 m1 n1
+        rcases obtainMonitor_cases s1 t cell mname unique prepend tags path reads with ⟨e1, e2⟩ | ⟨e1, e2, e3⟩
+        · -- alias
+          rw [e1] at *
+          refine ⟨by simp [n1], fun i hi => ?_⟩
+          rw [addMonitorTail_mons, ← m1]
+          split
+          · rfl
+          · rename_i htr
+            apply deregisterMon_eq_of_none
+            have := (w1.pool t a1 _ e2).2.2
+            cases hh : (s1.mons (obtainMonitor s1 t cell mname unique prepend tags path reads).2).handle with
+            | none => rfl
+            | some v => rw [hh] at this; simp only [Bool.not_eq_true] at htr; rw [htr] at this; cases this
+        · -- fresh
+          refine ⟨by simp [e2, n1], fun i hi => ?_⟩
+          have hne : i ≠ s1.nMons := by omega
+          rw [addMonitorTail_mons, ← m1, ← e3 i hne]
+          split
+          · rfl
+          · rw [deregisterMon_mons, e1]; simp [hne]
+
+theorem addTemplate_mons_frame (tpl : List (Nat × AttrSel × Bool × Bool × Nat × List Nat)) (t n : Nat) (s : State)
+    (w : WFc s) (hal : (s.trainers t).alive = true) :
+    s.nMons ≤ (addTemplate s t n tpl).nMons ∧ ∀ i, i < s.nMons → (addTemplate s t n tpl).mons i = s.mons i := by
+  induction tpl generalizing s with
+  | nil => exact ⟨Nat.le_refl _, fun _ _ => rfl⟩
+  | cons e rest ih =>
+    obtain ⟨w', a'⟩ := addMonitor_wfc w t n e.1 e.2.1 e.2.2.1 e.2.2.2.1 e.2.2.2.2.1 e.2.2.2.2.2 hal
+    obtain ⟨f1, f2⟩ := addMonitor_mons_frame w t n e.1 e.2.1 e.2.2.1 e.2.2.2.1 e.2.2.2.2.1 e.2.2.2.2.2 hal
+    obtain ⟨g1, g2⟩ := ih _ w' a'
+    exact ⟨Nat.le_trans f1 g1, fun i hi => by
+      show (addTemplate _ t n rest).mons i = _
+      rw [g2 i (by omega), f2 i hi]⟩
+
+theorem deregisterUnshared_nMons (shared : List Nat) (g : List (Nat × Nat)) (s : State) :
+    (deregisterUnshared s shared g).nMons = s.nMons := by
+  induction g generalizing s with
+  | nil => rfl
+  | cons e rest ih => rw [deregisterUnshared_cons, ih]; split <;> simp
+
+theorem delObserved_nMons (s : State) (t n : Nat) : (delObserved s t n).nMons = s.nMons := by
+  unfold delObserved; split
+  · rfl
+  · unfold dropGroup; simp [deregisterUnshared_nMons]
+
+theorem mem_otherMids_of_lookup {T : Trainer} {n n' m mid : Nat} {g : List (Nat × Nat)} (hne : n' ≠ n)
+    (h1 : lookup T.groups n' = some g) (h2 : (m, mid) ∈ g) : mid ∈ otherMids T n := by
+  unfold otherMids
+  rw [List.mem_flatMap]
+  refine ⟨(n', g), List.mem_filter.mpr ⟨lookup_mem h1, by simpa using hne⟩, ?_⟩
+  exact List.mem_map.mpr ⟨(m, mid), h2, rfl⟩
+
+/-- `del_observed` leaves every monitor of another trainer, and every monitor another group of
+the same pool holds, exactly as it was (the D17 repair) -/
+theorem delObserved_mons_frame {s : State} (w : WFc s) (t n : Nat) (hal : (s.trainers t).alive = true) (i : Nat)
+    (hi : i ∈ otherMids (s.trainers t) n ∨ (s.mons i).owner ≠ t) : (delObserved s t n).mons i = s.mons i := by
+  unfold delObserved
+  cases hg : lookup (s.trainers t).groups n with
+  | none => rfl
+  | some g =>
+    simp only
+    obtain ⟨_, _, _, _, _, f⟩ := deregisterUnshared_spec (otherMids (s.trainers t) n) g s w.h
+    unfold dropGroup
+    simp only [setTrainer_mons]
+    apply f
+    intro e he hei
+    rcases hi with h | h
+    · simpa [List.contains_iff_mem] using h
+    · exfalso; apply h
+      obtain ⟨e1, e2⟩ := e; simp only at hei; subst hei
+      exact (w.pool t hal _ (mem_pool_of_lookup hg he)).2.1
+
+theorem delEntry_mons_frame (s : State) (t n mname mid : Nat) (i : Nat)
+    (hi : i ≠ mid ∨ i ∈ poolMids ((eraseEntry s t n mname).trainers t)) :
+    (delEntry s t n mname mid).mons i = s.mons i := by
+  unfold delEntry dropEmptyGroup deregIfUnaliased
+  simp only [setTrainer_mons]
+  split
+  · rfl
+  · rename_i hnot
+    rw [deregisterMon_mons]
+    have : i ≠ mid := by
+      rcases hi with h | h
+      · exact h
+      · intro hc; subst hc; exact hnot (by simpa using h)
+    simp only [this, if_false]; rfl
+
+/-- the registration an operation is addressed to -/
+def addressed : Op → Option (Nat × Nat)
+  | .registerCell t n _ _ => some (t, n)
+  | .delCell t n => some (t, n)
+  | .addMonitor t n _ _ _ _ _ => some (t, n)
+  | .delMonitor t n _ => some (t, n)
+  | _ => none
+
+theorem stepCore_trFrame (s : State) (op : Op) (t n : Nat) (h : addressed op = some (t, n)) :
+    TrFrame s (stepCore s op).1 t n := by
+  cases op with
+  | registerCell t0 n0 c v =>
+    simp only [addressed, Option.some.injEq, Prod.mk.injEq] at h; obtain ⟨rfl, rfl⟩ := h
+    simp only [stepCore]
+    split
+    · exact TrFrame.refl _ _ _
+    · split
+      · exact TrFrame.refl _ _ _
+      · split
+        · exact TrFrame.refl _ _ _
+        · refine ((trFrame_delObserved s t0 n0).trans ?_).trans (trFrame_addTemplate ..)
+          unfold addCellEntry
+          exact TrFrame.setTrainer _ t0 n0 _ (fun _ _ => rfl) rfl rfl
+  | delCell t0 n0 =>
+    simp only [addressed, Option.some.injEq, Prod.mk.injEq] at h; obtain ⟨rfl, rfl⟩ := h
+    simp only [stepCore]
+    split
+    · exact TrFrame.refl _ _ _
+    · split
+      · exact TrFrame.refl _ _ _
+      · refine (trFrame_delObserved s t0 n0).trans ?_
+        unfold dropCell
+        exact TrFrame.setTrainer _ t0 n0 _ (fun _ _ => rfl) rfl rfl
+  | addMonitor t0 n0 mname sel unique prepend tags =>
+    simp only [addressed, Option.some.injEq, Prod.mk.injEq] at h; obtain ⟨rfl, rfl⟩ := h
+    simp only [stepCore]
+    split
+    · exact TrFrame.refl _ _ _
+    · exact trFrame_addMonitor ..
+  | delMonitor t0 n0 mname =>
+    simp only [addressed, Option.some.injEq, Prod.mk.injEq] at h; obtain ⟨rfl, rfl⟩ := h
+    simp only [stepCore]
+    split
+    · exact TrFrame.refl _ _ _
+    · split
+      · exact TrFrame.refl _ _ _
+      · split
+        · exact TrFrame.refl _ _ _
+        · split
+          · exact TrFrame.refl _ _ _
+          · exact trFrame_delEntry ..
+  | _ => simp [addressed] at h
+
+/-- the monitor objects of every OTHER registration survive an operation addressed to `(t, n)`
+unchanged (before reference counting) -/
+theorem stepCore_mons_frame {s : State} (w : WF s) (op : Op) (t n : Nat) (h : addressed op = some (t, n))
+    (t' n' : Nat) (hne : (t', n') ≠ (t, n)) (hal' : (s.trainers t').alive = true)
+    (g : List (Nat × Nat)) (hg : lookup (s.trainers t').groups n' = some g) (e : Nat × Nat) (he : e ∈ g) :
+    (stepCore s op).1.mons e.2 = s.mons e.2 := by
+  have wc := w.toWFc
+  obtain ⟨m, i⟩ := e
+  simp only
+  have hpool : i ∈ poolMids (s.trainers t') := mem_pool_of_lookup hg he
+  have hp := wc.pool t' hal' i hpool
+  have hlt : i < s.nMons := wc.h.alive_lt i hp.1
+  -- `i` is out of the reach of a deletion addressed to `(t, n)`
+  have hreach : i ∈ otherMids (s.trainers t) n ∨ (s.mons i).owner ≠ t := by
+    by_cases htt : t' = t
+    · subst htt
+      have : n' ≠ n := fun hc => hne (by rw [hc])
+      exact Or.inl (mem_otherMids_of_lookup this hg he)
+    · right; rw [hp.2.1]; exact htt
+  cases op with
+  | registerCell t0 n0 c v =>
+    simp only [addressed, Option.some.injEq, Prod.mk.injEq] at h; obtain ⟨rfl, rfl⟩ := h
+    simp only [stepCore]
+    split
+    · rfl
+    · rename_i hal
+      have hal : (s.trainers t0).alive = true := by simpa using hal
+      split
+      · rfl
+      · split
+        · rfl
+        · obtain ⟨w0, a0, _, _, _⟩ := delObserved_wfc wc t0 n0 hal
+          have w1 : WFc (addCellEntry (delObserved s t0 n0) t0 n0 c) := by
+            unfold addCellEntry
+            apply wfc_setTrainer w0 t0 _ (fun _ => w0.trainer_lt t0 a0)
+            intro _ x hx; exact w0.pool t0 a0 x hx
+          have a1 : ((addCellEntry (delObserved s t0 n0) t0 n0 c).trainers t0).alive = true := by
+            simp [addCellEntry, a0]
+          have := (addTemplate_mons_frame (template (s.trainers t0).kind v) t0 n0 _ w1 a1).2 i
+            (by show i < (delObserved s t0 n0).nMons; rw [delObserved_nMons]; exact hlt)
+          rw [this]
+          show (delObserved s t0 n0).mons i = _
+          exact delObserved_mons_frame wc t0 n0 hal i hreach
+  | delCell t0 n0 =>
+    simp only [addressed, Option.some.injEq, Prod.mk.injEq] at h; obtain ⟨rfl, rfl⟩ := h
+    simp only [stepCore]
+    split
+    · rfl
+    · rename_i hal
+      have hal : (s.trainers t0).alive = true := by simpa using hal
+      split
+      · rfl
+      · show (delObserved s t0 n0).mons i = _
+        exact delObserved_mons_frame wc t0 n0 hal i hreach
+  | addMonitor t0 n0 mname sel unique prepend tags =>
+    simp only [addressed, Option.some.injEq, Prod.mk.injEq] at h; obtain ⟨rfl, rfl⟩ := h
+    simp only [stepCore]
+    split
+    · rfl
+    · rename_i hal
+      have hal : (s.trainers t0).alive = true := by simpa using hal
+      exact (addMonitor_mons_frame wc t0 n0 mname sel unique prepend tags [] hal).2 i hlt
+  | delMonitor t0 n0 mname =>
+    simp only [addressed, Option.some.injEq, Prod.mk.injEq] at h; obtain ⟨rfl, rfl⟩ := h
+    simp only [stepCore]
+    split
+    · rfl
+    · rename_i hal
+      have hal : (s.trainers t0).alive = true := by simpa using hal
+      cases hg0 : lookup (s.trainers t0).groups n0 with
+      | none => rfl
+      | some g0 =>
+        simp only
+        split
+        · rfl
+        · cases hm0 : lookup g0 mname with
+          | none => rfl
+          | some mid =>
+            simp only
+            apply delEntry_mons_frame
+            by_cases htt : t' = t0
+            · subst htt
+              right
+              have hn : n' ≠ n0 := fun hc => hne (by rw [hc])
+              have : lookup ((eraseEntry s t' n0 mname).trainers t').groups n' = some g := by
+                unfold eraseEntry; rw [setTrainer_trainers_self]
+                show lookup (groupsErase _ n0 mname) n' = _
+                rw [lookup_groupsErase_ne _ _ _ _ hn]; exact hg
+              exact mem_pool_of_lookup this he
+            · left
+              intro hc; subst hc
+              have := (wc.pool t0 hal i (mem_gMids_of_lookup hg0 hm0)).2.1
+              rw [hp.2.1] at this; exact htt this
+  | _ => simp [addressed] at h
+
 end InfernoVerif.Lifecycle
